@@ -209,44 +209,7 @@ func runC02(c *Ctx) {
 			"arguments are (last bonded validators, provider-active validators) in that order; found ("+describe(arg(cl, 1))+", "+describe(arg(cl, 2))+")")
 	}
 	c.Check(len(sites) >= 2, "ComputeConsumerNextValSet/callers", nil, fmt.Sprintf("%d call sites (epoch and launch)", len(sites)))
-	// the same roles hold at every call of any keeper function that takes the two lists by name
-	// (both are []stakingtypes.Validator, so a swap one level further out type-checks as well)
-	nRole := 0
-	for _, callee := range c.P.ModuleFuncs("pk") {
-		if callee.Parent() != nil || isTestFile(c.P, callee) {
-			continue
-		}
-		roleIdx := map[int]string{}
-		for i, prm := range callee.Params {
-			if prm.Name() == "bondedValidators" || prm.Name() == "activeValidators" {
-				roleIdx[i] = prm.Name()
-			}
-		}
-		if len(roleIdx) != 2 {
-			continue // only functions taking both lists: that is where a swap type-checks
-		}
-		csites, _ := c.Callers(ssaFuncName(callee))
-		for _, s := range csites {
-			cl, ok := s.(ssa.CallInstruction)
-			if !ok || cl.Common().StaticCallee() != callee {
-				continue
-			}
-			if isTestFile(c.P, topFn(s.Parent())) {
-				continue
-			}
-			for i, role := range roleIdx {
-				want := POr(PCall("pk.Keeper.GetLastBondedValidators", 0, nil), PParam("bondedValidators"))
-				if role == "activeValidators" {
-					want = POr(PCall("pk.Keeper.GetLastProviderConsensusActiveValidators", 0, nil), PParam("activeValidators"))
-				}
-				nRole++
-				actual := cl.Common().Args[i]
-				c.Check(allRoots(actual, want, isEmptySliceLit), fk(topFn(s.Parent()), "list-role", shortName(ssaFuncName(callee)), role), s,
-					"parameter "+role+" of "+shortName(ssaFuncName(callee))+" receives the list of that role; found "+describe(actual))
-			}
-		}
-	}
-	c.Check(nRole >= 6, "list-role/census", nil, fmt.Sprintf("%d (call site, list parameter) pairs analysed", nRole))
+	checkListRoles(c)
 	if f := c.Fn("pk.Keeper.LaunchConsumer"); f != nil {
 		if cl := c.one(f, false, "pk.Keeper.HasActiveConsumerValidator"); cl != nil {
 			c.Check(PParam("activeValidators")(arg(cl, 2)), fk(f, "active-check-uses-active-set"), cl, "HasActiveConsumerValidator receives the active set")
@@ -600,4 +563,47 @@ func checkListIndexRefresh(c *Ctx, lists ...string) {
 		c.Check(mustPassBefore(st, d), fk(f, "clear-before-set"), st, "the index is cleared before it is rebuilt")
 	}
 
+}
+
+// checkListRoles: bonded/active validator lists keep their roles at every call of a function that
+// takes both (shared by C02.R4 and C03.R1: the Top-N threshold is computed over the active list).
+func checkListRoles(c *Ctx) {
+	// the same roles hold at every call of any keeper function that takes the two lists by name
+	// (both are []stakingtypes.Validator, so a swap one level further out type-checks as well)
+	nRole := 0
+	for _, callee := range c.P.ModuleFuncs("pk") {
+		if callee.Parent() != nil || isTestFile(c.P, callee) {
+			continue
+		}
+		roleIdx := map[int]string{}
+		for i, prm := range callee.Params {
+			if prm.Name() == "bondedValidators" || prm.Name() == "activeValidators" {
+				roleIdx[i] = prm.Name()
+			}
+		}
+		if len(roleIdx) != 2 {
+			continue // only functions taking both lists: that is where a swap type-checks
+		}
+		csites, _ := c.Callers(ssaFuncName(callee))
+		for _, s := range csites {
+			cl, ok := s.(ssa.CallInstruction)
+			if !ok || cl.Common().StaticCallee() != callee {
+				continue
+			}
+			if isTestFile(c.P, topFn(s.Parent())) {
+				continue
+			}
+			for i, role := range roleIdx {
+				want := POr(PCall("pk.Keeper.GetLastBondedValidators", 0, nil), PParam("bondedValidators"))
+				if role == "activeValidators" {
+					want = POr(PCall("pk.Keeper.GetLastProviderConsensusActiveValidators", 0, nil), PParam("activeValidators"))
+				}
+				nRole++
+				actual := cl.Common().Args[i]
+				c.Check(allRoots(actual, want, isEmptySliceLit), fk(topFn(s.Parent()), "list-role", shortName(ssaFuncName(callee)), role), s,
+					"parameter "+role+" of "+shortName(ssaFuncName(callee))+" receives the list of that role; found "+describe(actual))
+			}
+		}
+	}
+	c.Check(nRole >= 6, "list-role/census", nil, fmt.Sprintf("%d (call site, list parameter) pairs analysed", nRole))
 }
